@@ -22,6 +22,8 @@ def owner_of(f):
         return "C02"
     if f["stage"] in ("lookup", "ids", "init"):
         return "C03"
+    if f["stage"] == "search":
+        return "C13"
     if f["stage"] == "name_still_free":
         return "C12"
     out = f["out"]
